@@ -39,7 +39,19 @@ RULE = ("complete lattice sign_response x sign_assertion given as argument (None
         "certificate, and (where an SP setting is part of the case) fed to a real Saml2Client.  non-trivial = distinct "
         "(option cell, name-id source/format/policy, policy shape, farg shape, algorithm source, SP verdict)")
 TRUSTED = ["xmlsec1 stand-in (harness/standin/xmlsec1.py)", "independent reader + abstraction in harness/c09.py",
-           "SP acceptance models C01/C04/C05/C06 (each tied to the code by its own check)"]
+           "SP acceptance models C01/C04/C05/C06 (each tied to the code by its own check)",
+           "translator v2 harness/py2coq2.py + coq/theories/Base/Py2.v (semantics and trusted base: notes/translator_v2.md); "
+           "translated on every run into coq/gen/C09Src2.v and proved equal to the model in C09/Source2.v: "
+           "assertion.py Policy.get, Policy.get_nameid_format, Policy.get_lifetime, Policy.conditions; entity.py "
+           "Entity._issuer, Entity.sign; ident.py IdentDB.nim_args, IdentDB.get_nameid; argtree.py is_set (the test of "
+           "Server.update_farg); and, into coq/gen/C09Src2g.v / C09/Source2g.v, server.py Server.gather_authn_response_args "
+           "after harness/c09.py:_CallShapes rewrote two call shapes the translator refuses (f(x, **d) -> f(x, d) for "
+           "self.ident.find_nameid; args['policy'].get_nameid_format(e) -> policy_get_nameid_format(args['policy'], e)).  "
+           "Trusted there: the encodings of C09/Source2.v (objects as attribute records, the "
+           "policy as a dict of section dicts, module constants inlined with their live values) and the stated "
+           "premises about external calls (registration_info, factory, instant, not_on_or_after, Issuer/NameID "
+           "constructors, pre_signature_part, class_name, signed_instance_factory, match_local_id, create_id, store, "
+           "Config.getattr, IdentDB.find_nameid, IdentDB.construct_nameid)"]
 ASSUMPTIONS = [
     "no encryption (encrypt_assertion / pefim / encrypted advice are C16's), status=None, session_not_on_or_after=None",
     "release filtering is C10's and the wire mapping C17's: the policy carries no attribute restrictions, the "
@@ -107,9 +119,21 @@ def live_tables():
         nf_default = nfd.value
     else:
         raise RuntimeError("unexpected default nameid_format expression")
+    out = {"param_defaults": pd, "lifetime_default": life, "nameid_format_default": nf_default}
+    out.update(live_values())
+    return out
+
+
+def live_values():
+    """The part of live_tables() that needs no reading of the source text: algorithm lists and constants of the
+    live modules.  generate() and the abbreviation table use only this, so that a source text the AST readers
+    cannot follow is a broken translator obligation (VIOLATION) and not a crash of the generator."""
+    env.check_repo_import()
+    import saml2.saml as S
+    import saml2.xmldsig as ds
+
     d = ds.DefaultSignature()
     return {
-        "param_defaults": pd, "lifetime_default": life, "nameid_format_default": nf_default,
         "default_sign_alg": d.get_sign_alg(), "default_digest_alg": d.get_digest_alg(),
         "sig_allowed": [l for _, l in ds.SIG_ALLOWED_ALG], "digest_allowed": [l for _, l in ds.DIGEST_ALLOWED_ALG],
         "SCM_BEARER": S.SCM_BEARER, "NAMEID_FORMAT_PERSISTENT": S.NAMEID_FORMAT_PERSISTENT,
@@ -143,8 +167,165 @@ def regenerate_tables(ctx):
     for x, name in abbr().items():
         ab.append("Definition %s := %s." % (name, common.cq_str(x)))
     common.write_if_changed(os.path.join(common.GEN, "C09Abbrev.v"), "\n".join(ab) + "\n")
+    # translator v2: decision functions of the anchored code as they read NOW -> coq/gen/C09Src2.v
+    # (C09/Source2.v proves each equal to the model function it mirrors, for all inputs)
+    from harness import py2coq2
+    src2 = py2coq2.regenerate(os.path.join(common.GEN, "C09Src2.v"), src2_items())
+    src2g = regenerate_gather(os.path.join(common.GEN, "C09Src2g.v"))
     return {"file": "coq/gen/C09Tables.v", "param_defaults": {k: repr(v) for k, v in pd.items()},
-            "lifetime_default": t["lifetime_default"], "changed": changed, "obligations": 1, "discharged": 1}
+            "lifetime_default": t["lifetime_default"],
+            "changed": bool(changed) or bool(src2["changed"]) or bool(src2g["changed"]),
+            "obligations": 1 + src2["obligations"] + src2g["obligations"],
+            "discharged": 1 + src2["discharged"] + src2g["discharged"],
+            "untranslatable": list(src2["untranslatable"]) + list(src2g["untranslatable"]),
+            "translated": list(src2["translated"]) + list(src2g["translated"]), "source2": src2, "source2g": src2g}
+
+
+# ------------------------------------------------------------------------------ translator v2: specs
+ENTITY_PY = os.path.join(env.SRC, "saml2", "entity.py")
+IDENT_PY = os.path.join(env.SRC, "saml2", "ident.py")
+ARGTREE_PY = os.path.join(env.SRC, "saml2", "argtree.py")
+
+
+def src2_items():
+    """[(source file, qualified name, spec)] for harness/py2coq2.py.  External calls (metadata lookups, object
+    construction, crypto, the identifier store, time) become extra parameters of the Gallina definitions, which
+    C09/Source2.v quantifies over (Section variables + hypotheses).  Module constants (saml.NAMEID_FORMAT_*,
+    saml.SCM_*, SIG_ALLOWED_ALG, DIGEST_ALLOWED_ALG) are inlined with their LIVE values."""
+    from harness.py2coq2 import cstr
+    import saml2.saml as S
+    import saml2.xmldsig as ds
+
+    consts = {}
+    for n in dir(S):
+        if n.startswith(("NAMEID_FORMAT_", "SCM_")) and isinstance(getattr(S, n), str):
+            consts["saml." + n] = consts[n] = "(PStr %s)" % cstr(getattr(S, n))
+
+    def pairs(table):
+        if not all(isinstance(p, tuple) and len(p) == 2 and all(isinstance(x, str) for x in p) for p in table):
+            raise RuntimeError("unexpected shape of an allowed-algorithm table")
+        return "(PList [%s])" % "; ".join("PList [PStr %s; PStr %s]" % (cstr(a), cstr(b)) for a, b in table)
+
+    def kwlist(kw):
+        return "[%s]" % "; ".join("(%s, %s)" % (cstr(k), v) for k, v in sorted(kw.items()))
+
+    ri = ("registration_info", "pyval -> pyval -> pyval")
+    policy_get = lambda a: "(src2_policy_get registration_info v_self %s %s %s)" % tuple(a)
+    return [
+        # Policy.get: most specific section (requester > registration authority > default/"") as a whole
+        (ASSERTION_PY, "Policy.get", {
+            "name": "src2_policy_get", "params": ["self", "attribute", "sp_entity_id", "default"], "extra_params": [ri],
+            "calls": {"self.metadata_store.registration_info":
+                      lambda a: '(registration_info (p2_attr v_self "metadata_store") %s)' % a[0]}}),
+        (ASSERTION_PY, "Policy.get_nameid_format", {
+            "name": "src2_get_nameid_format", "params": ["self", "sp_entity_id"], "extra_params": [ri],
+            "globals": consts, "calls": {"self.get": policy_get}}),
+        (ASSERTION_PY, "Policy.get_lifetime", {
+            "name": "src2_get_lifetime", "params": ["self", "sp_entity_id"], "extra_params": [ri],
+            "globals": consts, "calls": {"self.get": policy_get}}),
+        # Policy.conditions: NotBefore / NotOnOrAfter / one AudienceRestriction with the requester
+        (ASSERTION_PY, "Policy.conditions", {
+            "name": "src2_conditions", "params": ["self", "sp_entity_id"],
+            "extra_params": [("factory", "pyval -> list (string * pyval) -> pyval"), ("instant", "pyval"),
+                             ("not_on_or_after", "pyval -> pyval -> pyval")],
+            "globals": {"saml.Conditions": '(PStr "Conditions")', "saml.AudienceRestriction": '(PStr "AudienceRestriction")',
+                        "saml.Audience": '(PStr "Audience")'},
+            "calls": {"factory": lambda a, kw: "(factory %s %s)" % (a[0], kwlist(kw)) if len(a) == 1 else "PErr",
+                      "instant": lambda a: "instant" if not a else "PErr",
+                      "self.not_on_or_after": lambda a: "(not_on_or_after v_self %s)" % a[0]}}),
+        # Entity._issuer: the given issuer, else the configured entity id
+        (ENTITY_PY, "Entity._issuer", {
+            "name": "src2_issuer", "params": ["self", "entityid"], "extra_params": [("mk_issuer", "list (string * pyval) -> pyval")],
+            "classes": {"Issuer": ["Issuer"]}, "globals": {"NAMEID_FORMAT_ENTITY": "(PStr %s)" % cstr(S.NAMEID_FORMAT_ENTITY)},
+            "calls": {"Issuer": lambda a, kw: "(mk_issuer %s)" % kwlist(kw) if not a else "PErr"}}),
+        # Entity.sign: argument > entity algorithm, the allowed-list tests, what is handed to the signer
+        (ENTITY_PY, "Entity.sign", {
+            "name": "src2_sign", "params": ["self", "msg", "mid", "to_sign", "sign_prepare", "sign_alg", "digest_alg"],
+            "extra_params": [("pre_signature_part", "pyval -> pyval -> pyval -> pyval -> pyval -> pyval"),
+                             ("class_name", "pyval -> pyval"), ("signed_instance_factory", "pyval -> pyval -> pyval -> pyval")],
+            "globals": {"SIG_ALLOWED_ALG": pairs(ds.SIG_ALLOWED_ALG), "DIGEST_ALLOWED_ALG": pairs(ds.DIGEST_ALLOWED_ALG)},
+            "calls": {"pre_signature_part": lambda a, kw: "(pre_signature_part %s %s %s %s %s)" % (
+                          a[0], a[1], a[2], kw["sign_alg"], kw["digest_alg"]) if len(a) == 3 and sorted(kw) == ["digest_alg", "sign_alg"] else "PErr",
+                      "class_name": lambda a: "(class_name %s)" % a[0],
+                      "signed_instance_factory": lambda a: "(signed_instance_factory %s %s %s)" % tuple(a)}}),
+        # IdentDB.nim_args: format and SPNameQualifier of a constructed identifier
+        (IDENT_PY, "IdentDB.nim_args", {
+            "name": "src2_nim_args", "params": ["self", "local_policy", "sp_name_qualifier", "name_id_policy", "name_qualifier"],
+            "extra_params": [ri], "exc_parents": {"SAMLError": ["Exception"]},
+            "calls": {"local_policy.get_nameid_format":
+                      lambda a: "(src2_get_nameid_format registration_info v_local_policy %s)" % a[0]}}),
+        # IdentDB.get_nameid: re-use of a persistent identifier, the e-mail domain test, construction
+        (IDENT_PY, "IdentDB.get_nameid", {
+            "name": "src2_get_nameid", "params": ["self", "userid", "nformat", "sp_name_qualifier", "name_qualifier"],
+            "extra_params": [("match_local_id", "pyval -> pyval -> pyval -> pyval -> pyval"),
+                             ("create_id", "pyval -> pyval -> pyval -> pyval"), ("store", "pyval -> pyval -> pyval"),
+                             ("mk_nameid", "list (string * pyval) -> pyval")],
+            "globals": consts, "exc_parents": {"SAMLError": ["Exception"]},
+            "calls": {"self.match_local_id": lambda a: "(match_local_id v_self %s %s %s)" % tuple(a),
+                      "self.create_id": lambda a: "(create_id %s %s %s)" % tuple(a),
+                      "self.store": lambda a: "(store %s %s)" % tuple(a),
+                      "NameID": lambda a, kw: "(mk_nameid %s)" % kwlist(kw) if not a else "PErr"}}),
+        # argtree.is_set: the test update_farg() makes before it fills in a confirmation argument
+        (ARGTREE_PY, "is_set", {"name": "src2_is_set", "params": ["tdict", "path"]}),
+    ]
+
+
+class _CallShapes(ast.NodeTransformer):
+    """Two call shapes that py2coq2 refuses, rewritten into calls of spec'd externals before translation.  Both
+    concern only HOW an external callee is reached, never a decision of the function:
+      self.ident.find_nameid(userid, **kwa)                -> self.ident.find_nameid(userid, kwa)
+          (the keyword dict is handed to the external as one dict value)
+      args["policy"].get_nameid_format(sp_entity_id)       -> policy_get_nameid_format(args["policy"], sp_entity_id)
+          (a method call on a subscript: receiver first)"""
+
+    def visit_Call(self, node):
+        self.generic_visit(node)
+        from harness.py2coq2 import _dotted
+        if _dotted(node.func) == "self.ident.find_nameid" and any(k.arg is None for k in node.keywords):
+            stars = [k.value for k in node.keywords if k.arg is None]
+            if len(stars) == 1 and len(node.keywords) == 1:
+                return ast.copy_location(ast.Call(func=node.func, args=list(node.args) + stars, keywords=[]), node)
+        if isinstance(node.func, ast.Attribute) and node.func.attr == "get_nameid_format" \
+                and isinstance(node.func.value, ast.Subscript) and not node.keywords:
+            f = ast.copy_location(ast.Name(id="policy_get_nameid_format", ctx=ast.Load()), node.func)
+            return ast.copy_location(ast.Call(func=f, args=[node.func.value] + list(node.args), keywords=[]), node)
+        return node
+
+
+def gather_spec():
+    return {"name": "src2_gather", "params": ["self", "sp_entity_id", "name_id_policy", "userid", "kwargs"],
+            "attr_errors": True,
+            "extra_params": [("registration_info", "pyval -> pyval -> pyval"), ("cfg_getattr", "pyval -> pyval -> pyval -> pyval"),
+                             ("enc_cert_ok", "pyval -> pyval"), ("find_nameid", "pyval -> pyval -> pyval -> pyval"),
+                             ("construct_nameid", "pyval -> pyval -> pyval -> pyval -> pyval -> pyval")],
+            "exc_parents": {"SAMLError": ["Exception"], "SigverError": ["SAMLError", "Exception"],
+                            "CertificateError": ["SigverError", "SAMLError", "Exception"]},
+            "calls": {"self.config.getattr": lambda a: '(cfg_getattr (p2_attr_x v_self "config") %s %s)' % tuple(a),
+                      "_enc_cert": lambda a: "(enc_cert_ok %s)" % a[0],
+                      "self.ident.find_nameid": lambda a: '(find_nameid (p2_attr_x v_self "ident") %s %s)' % tuple(a),
+                      "self.ident.construct_nameid":
+                          lambda a: '(construct_nameid (p2_attr_x v_self "ident") %s %s %s %s)' % tuple(a),
+                      "policy_get_nameid_format": lambda a: "(src2_get_nameid_format registration_info %s %s)" % tuple(a)}}
+
+
+def regenerate_gather(gen_path):
+    """Server.gather_authn_response_args -> coq/gen/C09Src2g.v, through py2coq2.translate_def after _CallShapes
+    (fail-closed like py2coq2.regenerate: what cannot be translated becomes a poisoned definition)."""
+    from harness import py2coq2
+    q, spec = "Server.gather_authn_response_args", gather_spec()
+    failed = []
+    try:
+        with open(SERVER_PY) as f:
+            fn = py2coq2.find_function(ast.parse(f.read()), q)
+        fn = ast.fix_missing_locations(_CallShapes().visit(fn))
+        body = py2coq2.translate_def(fn, spec, "saml2/server.py:%s (call shapes rewritten by harness/c09.py)" % q)
+    except (py2coq2.Untranslatable, OSError, SyntaxError) as e:
+        failed.append("%s: %s" % (q, e))
+        body = py2coq2.poison(q, spec, str(e))
+    txt = py2coq2.HEADER + "From VerifGen Require Import C09Src2.\n\n" + body
+    changed = common.write_if_changed(gen_path, txt)
+    return {"translated": [q], "untranslatable": failed, "changed": changed, "obligations": 1,
+            "discharged": 1 - len(failed)}
 
 
 # ------------------------------------------------------------------------------ the little federation
@@ -490,7 +671,7 @@ def observe(case):
 def abbr_strings():
     """Strings that occur in (nearly) every case get a name in coq/gen/C09Abbrev.v: Coq parses a string literal
     character by character, which dominated the evaluation time.  The list is static (independent of the seed)."""
-    t = live_tables()
+    t = live_values()
     out = []
     for x in ([IDP, POST, REDIRECT, RA, AFF, NF_T, NF_P, NF_E, NF_U, AC_PW, AC_PPT, SCM_SV, MD5, DMD5, render.SCM_BEARER,
                "https://idp.example.org/authority", "https://elsewhere.example.org/acs", world.OTHER_ID,
@@ -908,7 +1089,7 @@ def gen_random(rng, n):
 
 def generate(ctx):
     rng = ctx.rng
-    t = live_tables()
+    t = live_values()
     cases = []
     cases += gen_lattice(rng, ctx.thorough)
     cases += gen_nameid(rng, ctx.thorough)
